@@ -160,7 +160,7 @@ def run(spec):
         from sfc_models.sector import Market as _Market
         if c0['money'] is not None:
             mm = S[(zi, 0, 'money')]
-            issuer = S[(zi, 0, 'cb')] if g['kind'] == 'treasury_cb' else S[(zi, 0, 'gov')]
+            issuer = S[(zi, 0, 'cb')] if g['kind'] in ('treasury_cb', 'gold_cb') else S[(zi, 0, 'gov')]
             holders = [s for s in zone_sectors if s.HasF and s is not issuer]
             for k in range(1, K + 1):
                 tot = Fraction(0)
